@@ -1,7 +1,7 @@
 (* C13 - Align pads every line to the exact width on the correct side. *)
 From Coq Require Import List Bool ZArith Lia.
 Import ListNotations.
-From Rosed Require Import Base.ListX Gem.Segment Gem.GString Model.Manip Proofs.SeamP Proofs.C13P Inst.Go Inst.GoOk Base.Res Base.Utf8 Base.Str Model.Table Model.Options Model.Editor Model.Ops Proofs.OpsMapP Model.Tb Proofs.C11P Proofs.C11Q.
+From Rosed Require Import Base.ListX Gem.Segment Gem.GString Model.Manip Proofs.SeamP Proofs.C13P Inst.Go Inst.GoOk Inst.GoRt gen.GemAlign Inst.GoAlign Base.Res Base.Utf8 Base.Str Model.Table Model.Options Model.Editor Model.Ops Proofs.OpsMapP Model.Tb Proofs.C11P Proofs.C11Q.
 Open Scope Z_scope.
 
 (* Left: the line minus its leading whitespace clusters, then spaces up to the width
@@ -78,3 +78,19 @@ Theorem C13_align_paragraphs : forall (C : Classifier) (U : Upper) a width opts 
     Ok (with_text e (join (o_parasep o) (map (fun b => encode (align_piece a width (decode (o_linesep o)) (decode b))) ps))).
 Proof. intros C U. exact align_opts_paragraphs. Qed.
 Print Assumptions C13_align_paragraphs.
+
+(* AlignLineLeft / AlignLineRight / AlignLineCenter and the two white-space counters as they are
+   in internal/manip/manip.go now - translated statement by statement on every run
+   (gen/GemFuncs.v) - are the model's functions, for every text, width and classifier (Go's
+   truncating division agrees with the model's where it is used: a positive number of missing
+   columns) *)
+Theorem C13_align_functions_are_the_source : forall (C : Classifier) text width,
+  go_CountLeadingWhitespace text = count_leading_ws text /\ go_CountTrailingWhitespace text = count_trailing_ws text /\
+  go_AlignLineLeft text width = align_left text width /\ go_AlignLineRight text width = align_right text width /\
+  go_AlignLineCenter text width = align_center text width.
+Proof.
+  intros C text width.
+  exact (conj (go_count_leading_eq text) (conj (go_count_trailing_eq text) (conj (go_align_left_eq text width)
+        (conj (go_align_right_eq text width) (go_align_center_eq text width))))).
+Qed.
+Print Assumptions C13_align_functions_are_the_source.
